@@ -148,9 +148,9 @@ Proof. exact (lexc_expr_text a). Qed.
 
 (** [add_expr(to_expr(u))] is [u], on the raw text returned by [to_expr] *)
 Theorem C05t_to_expr_roundtrip_raw s u :
-  Inv s → valid s u → last_len s = None → max_nodes s = None →
+  Inv s → valid s u → last_len s = None →
   ∃ txt, to_expr u s = (Ok txt, s) ∧
-    ∀ r s', add_expr_text_ txt s = (r, s') →
+    ∀ r s', max_nodes s = None → add_expr_text_ txt s = (r, s') →
       r = Ok u ∧ Inv s' ∧ extends s s' ∧ last_len s' = None ∧ max_nodes s' = None.
 Proof. exact (to_expr_roundtrip_raw s u). Qed.
 
